@@ -539,6 +539,35 @@ class ToleranceLog:
         return out
 
 
+def _trunc(e):
+    """rounding toward zero"""
+    e = sp.sympify(e)
+    if e.is_number:
+        return sp.floor(e) if e >= 0 else sp.ceiling(e)
+    return sp.sign(e) * sp.floor(sp.Abs(e))
+
+
+def _elementwise2(f, a, b):
+    if not (is_arr(a) or is_arr(b) or isinstance(a, (list, tuple)) or isinstance(b, (list, tuple))):
+        return f(sp.sympify(a), sp.sympify(b))
+    A, B = np.broadcast_arrays(np.asarray(a, dtype=object), np.asarray(b, dtype=object))
+    out = np.empty(A.shape, dtype=object)
+    for i in range(out.size):
+        out.flat[i] = f(sp.sympify(A.flat[i]), sp.sympify(B.flat[i]))
+    return out
+
+
+def _arctan2(y, x):
+    """element-wise four-quadrant arctangent with numpy broadcasting"""
+    if not (is_arr(y) or is_arr(x) or isinstance(y, (list, tuple)) or isinstance(x, (list, tuple))):
+        return sp.atan2(y, x)
+    Y, X = np.broadcast_arrays(np.asarray(y, dtype=object), np.asarray(x, dtype=object))
+    out = np.empty(Y.shape, dtype=object)
+    for i in range(out.size):
+        out.flat[i] = sp.atan2(Y.flat[i], X.flat[i])
+    return out
+
+
 def _arange(*a, **k):
     """np.arange on concrete numbers: start + i*step for i < ceil((stop - start) / step)"""
     if any(kk != 'dtype' for kk in k):
@@ -586,12 +615,15 @@ NP_FUNCS = {
     'numpy.full': lambda shape, v, **k: _fill(shape, v),
     'numpy.identity': _identity, 'numpy.eye': _identity, 'numpy.arange': lambda *a, **k: _arange(*a, **k), 'numpy.digitize': lambda x, bins, right=False: _digitize(x, bins, right),
     'numpy.cos': lambda x: vmap(sp.cos, x), 'numpy.sin': lambda x: vmap(sp.sin, x), 'numpy.tan': lambda x: vmap(sp.tan, x),
-    'numpy.arctan': lambda x: vmap(sp.atan, x), 'numpy.arctan2': lambda y, x: sp.atan2(y, x),
+    'numpy.arctan': lambda x: vmap(sp.atan, x), 'numpy.arctan2': lambda y, x: _arctan2(y, x),
     'numpy.arccos': lambda x: vmap(sp.acos, x), 'numpy.arcsin': lambda x: vmap(sp.asin, x),
     'numpy.log': lambda x: vmap(sp.log, x), 'numpy.exp': lambda x: vmap(sp.exp, x),
     'numpy.sqrt': lambda x, out=None, **k: _ufunc_out(vmap(sp.sqrt, x), out) if out is not None else vmap(sp.sqrt, x),
     'numpy.diagonal': lambda a, offset=0, axis1=0, axis2=1: np.diagonal(np.asarray(a, dtype=object), int(offset), int(axis1), int(axis2)).copy(), 'numpy.abs': lambda x: vmap(sp.Abs, x), 'numpy.absolute': lambda x: vmap(sp.Abs, x),
     'numpy.sign': lambda x: vmap(sp.sign, x), 'numpy.floor': lambda x: vmap(sp.floor, x), 'numpy.ceil': lambda x: vmap(sp.ceiling, x),
+    'numpy.trunc': lambda x: vmap(_trunc, x), 'numpy.fix': lambda x: vmap(_trunc, x),
+    'numpy.mod': lambda a, b: _elementwise2(lambda p, q: p - q * sp.floor(p / q), a, b), 'numpy.remainder': lambda a, b: _elementwise2(lambda p, q: p - q * sp.floor(p / q), a, b),
+    'numpy.fmod': lambda a, b: _elementwise2(lambda p, q: p - q * _trunc(p / q), a, b), 'numpy.floor_divide': lambda a, b: _elementwise2(lambda p, q: sp.floor(p / q), a, b),
     'numpy.rint': lambda x: _rint(x), 'numpy.round': lambda x, decimals=0: (_rint(x) if decimals == 0 and all(sp.sympify(v).is_number for v in np.ravel(x)) else x),
     'numpy.radians': lambda x: vmap(lambda e: e * sp.pi / 180, x), 'numpy.degrees': lambda x: vmap(lambda e: e * 180 / sp.pi, x),
     'numpy.dot': lambda a, b: np.dot(a, b), 'numpy.inner': lambda a, b: np.inner(a, b), 'numpy.outer': lambda a, b: np.outer(a, b),
@@ -1059,11 +1091,29 @@ class SymEval:
         if n.id in ('dict', 'set'):
             return {'dict': dict, 'set': set}[n.id]
         if n.id == 'sorted':
-            def _sorted(x):
+            def _sorted(x, key=None, reverse=False):
                 x = list(x)
-                if all(isinstance(v, str) for v in x) or all(isinstance(v, (int, sp.Integer)) for v in x):
-                    return sorted(x)
-                raise Opaque('sorted() of symbolic values')
+                ks = [key(v) for v in x] if key is not None else list(x)
+
+                def kind(v):
+                    if isinstance(v, str):
+                        return 'str'
+                    if isinstance(v, (bool, np.bool_)):
+                        return 'num'
+                    if isinstance(v, (int, float, np.integer, np.floating)) or (isinstance(v, sp.Basic) and v.is_number and v.is_real):
+                        return 'num'
+                    if isinstance(v, (tuple, list)):
+                        ks_ = [kind(e) for e in v]
+                        return None if None in ks_ else 'seq'
+                    if isinstance(v, PyStub) and '__lt__' in type(v).__dict__:
+                        return 'obj:' + type(v).__name__          # a model object that defines its own ordering (paths order by name)
+                    return None
+                kinds = {kind(v) for v in ks}
+                if None in kinds or len(kinds) > 1:
+                    if not ks:
+                        return []
+                    raise Opaque('sorted() of symbolic values')
+                return [x[i] for i in sorted(range(len(x)), key=lambda i: ks[i], reverse=bool(self.truth(reverse, n, p)) if not isinstance(reverse, bool) else reverse)]
             return _sorted
         if n.id in p.env.get('__global_names__', ()):
             # declared `global`, never bound by the module or by an earlier call on this evaluator
